@@ -111,6 +111,31 @@ def obligations(repo):
     return out
 
 
+def call_alias_obligations(repo):
+    """F33: `child(options)` is NOT `child.evaluate(options)` when the child is a dataset class (calling a class instantiates it, no EvaluateRequest).
+    Every evaluation of an Evaluatable-typed field inside labrea therefore uses .evaluate(); the only call-syntax uses left are on `self` itself
+    (pipelines, never classes) and on CallbackEffect.callback (whose value must be a function, so it cannot be a dataset class)."""
+    out = []
+    allowed = {("CallbackEffect", "transform", "self.callback")}
+    for m in repo.modules.values():
+        for ci in m.classes.values():
+            for name, fn in ci.methods.items():
+                bad = []
+                for n in ast.walk(fn):
+                    if isinstance(n, ast.Call) and isinstance(n.func, ast.Attribute) and isinstance(n.func.value, ast.Name) and n.func.value.id == "self" \
+                            and len(n.args) == 1 and isinstance(n.args[0], ast.Name) and n.args[0].id == "options" and not n.keywords:
+                        fld = n.func.attr
+                        ann = ci.annotations.get(fld) if hasattr(ci, "annotations") else None
+                        is_ev_field = ann is not None and "Evaluatable" in ast.unparse(ann) and "Dict" not in ast.unparse(ann) and "List" not in ast.unparse(ann)
+                        if is_ev_field and (ci.name, name, f"self.{fld}") not in allowed:
+                            bad.append(ast.unparse(n))
+                if bad or any(True for _ in ()):
+                    pass
+                out.append({"name": f"{ci.name}.{name}:C18call:children-evaluated-through-evaluate-not-call-syntax", "ok": not bad, "detail": "; ".join(bad)[:160],
+                            "group": f"{ci.name}:C18call"})
+    return out
+
+
 def trace_obligations(repo):
     """Option.evaluate issues a TypeValidationRequest on every returning path; Cached/Logged issue their requests (trace)"""
     out, undecided = [], []
